@@ -1150,9 +1150,10 @@ func (e *Entry) Augment(addErrors bool) (processed, skipped int) {
 			unapplied = append(unapplied, a)
 			continue
 		}
-		if target.Dir == nil || target.Kind == AnyDataEntry || target.Kind == AnyXMLEntry {
+		if target.Dir == nil || target.Kind == AnyDataEntry || target.Kind == AnyXMLEntry || target.RPC != nil {
 			// Leaves, leaf-lists, anydata and anyxml nodes cannot
-			// have child nodes.
+			// have child nodes, and the only children of an rpc or
+			// action are its input and output.
 			if addErrors {
 				e.errorf("%s: augment %s: target %s cannot have child nodes", Source(a.Node), a.Name, target.Kind)
 			}
